@@ -245,7 +245,9 @@ def oracle_c12(gen, shape, kw, m):
                 bad.append(("dfstree", "an edge touches a non-visited cell"))
             if len(es) != len(visset) - 1:
                 bad.append(("dfstree", f"{len(es)} edges over {len(visset)} visited cells: not a tree"))
-            n_acc = meta.get("n_accessible_cells")
+            # the REQUESTED number, from the arguments of this call (count, or fraction of the grid) - not from what the metadata says
+            a = kw.get("accessible_cells")
+            n_acc = r * c if a is None else (int(a * r * c) if isinstance(a, float) else int(a))
             if n_acc is not None:
                 if len(visset) > max(int(n_acc), 1):
                     bad.append(("dfscount", f"{len(visset)} visited cells > requested {n_acc}"))
@@ -289,6 +291,20 @@ def oracle_random_path(m, shape, res, key_prefix, replay_base):
             res.fail(f"{key_prefix}|random_path|invalid", f"random path {p} does not follow connections",
                      dict(replay_base, stage="random_path", path_answers=ex.answers))
 
+    # history: the same walls have been seen before with OTHER metadata (none at all / flagged fully connected / another start's
+    # component) - what such a twin answered must not be handed to this maze
+    try:
+        from maze_dataset.maze import LatticeMaze
+
+        twins = [LatticeMaze(connection_list=m.connection_list.copy()),
+                 LatticeMaze(connection_list=m.connection_list.copy(), generation_meta=dict(fully_connected=True))]
+        for comp in R.components(adj):
+            twins.append(LatticeMaze(connection_list=m.connection_list.copy(),
+                                     generation_meta=dict(fully_connected=False, start_coord=min(comp), visited_cells=set(comp))))
+        for tw in twins[:6]:
+            tw.get_connected_component()
+    except Exception:  # noqa: BLE001 - the twins are only history
+        pass
     with owned_rng():
         st = explore.explore_stateless(lambda: m.generate_random_path(), on_exec)
     return st["executions"]
@@ -478,5 +494,5 @@ def replay_case(d, res, which):
             ex2 = explore.run_with(d["path_answers"], lambda: m.generate_random_path())
         if ex2.exc is not None:
             res.fail(f"{keyp}|random_path|{type(ex2.exc).__name__}", f"generate_random_path raised {ex2.exc!r}", d)
-        elif not R.path_valid(adj, [tuple(int(x) for x in t) for t in ex2.out]):
+        elif not R.path_valid(adj, [tuple(int(x) for x in t) for t in ex2.out]):  # (replay: without the twin history)
             res.fail(f"{keyp}|random_path|invalid", f"random path {ex2.out.tolist()} invalid", d)
